@@ -473,3 +473,27 @@ Proof. unfold ch_frames. intros H. apply in_map_iff in H. destruct H as [p [<- _
 
 Lemma ch_frames_nil c names : ch_frames c names [] = [].
 Proof. reflexivity. Qed.
+
+(* ---------- the statements collected for Props/C13.v ---------- *)
+Theorem ch_chunks_spec {A} c (l : list A) : 0 < c ->
+  concat (ch_chunks c l) = l
+  /\ (forall i x, nth_error (ch_chunks c l) i = Some x -> S i < length (ch_chunks c l) -> length x = c)
+  /\ Forall (fun x => x <> [] /\ length x <= c) (ch_chunks c l).
+Proof.
+  intros Hc. split; [apply ch_chunks_concat; exact Hc|]. split.
+  - intros i x Hi Hl. eapply ch_chunks_full; eassumption.
+  - apply Forall_forall. intros x Hx. split.
+    + assert (H := ch_chunks_nonempty c l Hc). rewrite Forall_forall in H. apply H. exact Hx.
+    + eapply ch_chunks_length_le; eassumption.
+Qed.
+
+Theorem ch_index_spec {A} c (l : list A) : 0 < c ->
+  (forall i, nth_error (ch_ranges c l) i =
+             if Nat.ltb (i * c) (length l)
+             then Some (seq (i * c) (length (firstn c (skipn (i * c) l)))) else None)
+  /\ concat (ch_ranges c l) = seq 0 (length l)
+  /\ map (@length nat) (ch_ranges c l) = map (@length A) (ch_chunks c l).
+Proof.
+  intros Hc. split; [intros i; apply ch_ranges_nth; exact Hc|]. split; [apply ch_ranges_concat; exact Hc|].
+  unfold ch_ranges, ch_chunks. rewrite !map_map. apply map_ext. intros p. apply seq_length.
+Qed.
